@@ -96,6 +96,21 @@ def check(run, prog, tier):
     fail_unl = any(any(e.get("n") == "success" and not t for e, t in [(strip(normalize_cond(c, t)[0]), normalize_cond(c, t)[1]) for c, t, B in cfgq.guards(so, b.id)]) for b, i, n in unl)
     run.ob("C16-a", "failure-unlinks-temp", fail_unl, "unlink(%s) on the !success branch: %s" % (tmpvar, fail_unl), so.file, so.line, "save_object", what="a failed save leaves its temporary behind")
 
+    # the stream is closed on every way out once it was opened
+    open_b = opens[0][0]
+    oc = so.branch_cond(open_b)
+    start = list(open_b.live_succ())
+    if oc is not None:
+        e0, t0 = normalize_cond(oc, True)
+        if strip(e0).get("n") == fvar:
+            # succ[0] is taken when `oc` is true; the stream exists on the edge where fvar is non-null
+            start = [open_b.succ[0] if t0 else open_b.succ[1]]
+    closing = {b.id for b, i, n in fcl}
+    leak = so.reach_avoiding(start, lambda blk: so.exit in blk.live_succ() and not blk.nr, avoid_blocks=closing)
+    run.ob("C16-a", "stream-closed-on-exit", leak is None, "every return after a successful fopen() passes fclose()" if leak is None else
+           "path %s returns from save_object with the temporary stream still open (no fclose, the temporary stays behind)" % leak[:8], so.file, opens[0][2].get("l"), "save_object",
+           what="save_object can return with the temporary's stream open")
+
     # ---- C16-b
     def case_regions(f):
         S = [bid for bid in f.reachable() if f.blocks[bid].term and f.blocks[bid].term["k"] == "SwitchStmt"]
@@ -190,6 +205,7 @@ def check(run, prog, tier):
     tops = [f for f in unit.funcs.values() if f.file.endswith("object.c") and f.name not in COMPOUND and f.name not in ("restore_internal_size", "restore_size")
             and any(True for _ in f.calls(COMPOUND))]
     run.need(len(tops) >= 1, "top-level restore entry points")
+    leaky = None
     for f in sorted(tops, key=lambda x: x.line):
         run.saw(f)
         resets = [bid for bid in f.reachable() if f.branch_cond(bid) is not None and strip(f.branch_cond(bid)).get("n") == "save_svalue_depth"]
@@ -204,11 +220,22 @@ def check(run, prog, tier):
         # dominates every call of restore_array/mapping/class makes a leftover from an earlier error harmless
         entry = [(b2.id, i2) for b2, i2, n2 in f.nodes() if n2.get("k") == "Asg" and n2.get("op") == "=" and strip(n2["L"]).get("n") == "save_svalue_depth" and const_val(n2["R"]) == 0]
         entry_ok = bool(calls) and all(any(f.point_dominates(e, (b.id, i)) for e in entry) for b, i, n in calls)
-        ok = (bool(resets) and zero and bad is None) or entry_ok
+        # a reset on the way out is enough only if nothing that changes the counter can leave by error(): a raise
+        # skips every exit path of this function (and of the save functions, which share the counter)
+        if leaky is None:
+            import callgraph as _cgm
+            _cg = _cgm.CallGraph(prog)
+            _eff = _cgm.Effects(_cg)
+            leaky = sorted(g.name for g in unit.funcs.values() if g.name in _eff.may_raise and any(
+                (n2.get("k") in ("Un", "Post", "Pre") and "++" in (n2.get("op") or "") and strip(n2.get("e")).get("n") == "save_svalue_depth") or
+                (n2.get("k") == "Asg" and n2.get("op") == "+=" and strip(n2["L"]).get("n") == "save_svalue_depth") for b2, i2, n2 in g.nodes()))
+        ok = (bool(resets) and zero and bad is None and not leaky) or entry_ok
+        if not ok and bad is None and leaky and resets:
+            bad = ("error()", "%s can raise with the counter raised; the reset on %s's return paths is never reached then" % ("/".join(leaky[:4]), f.name))
         if entry_ok and not (bool(resets) and zero and bad is None):
             bad = None
         run.ob("C16-d", "reset:%s" % f.name, ok, ("save_svalue_depth is cleared before every container restore starts" if entry_ok and not (bool(resets) and zero) else "after %s every path to a return passes the `if (save_svalue_depth)` reset (and the depth is %scleared on entry)" % ("/".join(sorted({n["fn"] for b, i, n in calls})), "" if entry_ok else "not ")) if ok else
-               ("path %s returns from %s after %s without resetting save_svalue_depth/save_svalue_sizes" % (bad[1][:8], f.name, bad[0]) if bad else "%s has no reset of the nesting state" % f.name),
+               (("path %s returns from %s after %s without resetting save_svalue_depth/save_svalue_sizes" % (bad[1][:8], f.name, bad[0]) if bad[0] != "error()" else bad[1]) if bad else "%s has no reset of the nesting state" % f.name),
                f.file, f.line, f.name, what="%s can return (on a parse error) with the restore nesting state still set: the next restore of valid text is mis-sized or reads a freed table" % f.name)
 
     # ---- C16-c
@@ -247,3 +274,364 @@ def check(run, prog, tier):
                "every use of num_variables_defined comes after the recursion over prog->inherit[]" if heads and not bad else "num_variables_defined is used at line(s) %s on a path that has not walked the inherited programs: the cursor skips only this program's own variables where the other walkers skip the whole subtree" % bad,
                f.file, f.line, f.name, what="%s advances the variable cursor past a program without accounting for its inherited variables (save/restore layout disagreement)" % f.name)
     run.need(nw >= 4, "inherit-tree walkers with a variable cursor (found %d)" % nw)
+
+    # ---- C16-f copy loops over save text stop at the end of the text
+    run.rule("C16-f", "restore parsers: a loop that copies or scans characters until a closing delimiter (`while ((c = *cp++) != '\\\"')`) tests for the terminating NUL on every iteration, so a string cut short by a truncated file cannot make it run past the buffer", 3)
+    import callgraph
+    nloops = 0
+    for f in sorted(prog.functions(), key=lambda x: (x.file, x.line)):
+        if not f.file.endswith(("lib/lpc/object.c", "lib/lpc/mapping.c")) or not f.name.startswith("restore"):
+            continue
+        ordf = 0
+        for bid in sorted(f.reachable()):
+            c = f.branch_cond(bid)
+            blk = f.blocks[bid]
+            if c is None or not blk.term or blk.term.get("k") not in ("WhileStmt", "ForStmt", "DoStmt"):
+                continue
+            op, l, r = atom_of(c, True)
+            if op != "!=" or const_val(r) in (None, 0):
+                continue
+            l0 = strip(l)
+            # (c = *cp++) != K   : the scanned variable and the cursor
+            if not (l0.get("k") == "Asg" and l0.get("op") == "=" and strip(l0["L"]).get("k") == "Ref" and any(x.get("k") == "Un" and x.get("op") == "*" for x in walk(l0["R"]))):
+                continue
+            var = strip(l0["L"])
+            nloops += 1
+            run.saw(f)
+            body = blk.succ[0]
+            # every path from the loop body back to the loop condition passes a test of var against 0 whose "is NUL" edge leaves the loop
+            nul_tests = set()
+            for b2 in f.reachable():
+                c2 = f.branch_cond(b2)
+                if c2 is None:
+                    continue
+                for truth, idx in ((True, 0), (False, 1)):
+                    o2, l2, r2 = atom_of(c2, truth)
+                    isnul = (o2 == "==" and strip(l2).get("id") == var.get("id") and const_val(r2) == 0) or (o2 == "false" and strip(l2).get("id") == var.get("id"))
+                    # also `!(c = *newp++ = *cp++)` style tests of the copied character do not count: they test the escaped char
+                    if isnul:
+                        nul_tests.add(b2)
+            # switch form:  switch (c) { ... case '\0': return ERROR; }
+            for b2 in f.reachable():
+                blk2 = f.blocks[b2]
+                t2 = blk2.term or {}
+                if t2.get("k") != "SwitchStmt":
+                    continue
+                cond2 = t2.get("cond") or (blk2.el[-1] if blk2.el else None)
+                if cond2 is None or strip(cond2).get("id") != var.get("id"):
+                    continue
+                for sx in blk2.succ:
+                    lab = f.blocks[sx].label if sx is not None else None
+                    if lab and lab.get("k") == "case" and lab.get("lo") == 0 and bid not in cfgq.reach_set(f, [sx]):
+                        nul_tests.add(b2)
+            p = f.reach_avoiding([body], lambda b3, t=bid: b3.id == t, avoid_blocks=nul_tests) if body is not None else None
+            run.ob("C16-f", "scan-loop:%s:%s:%d" % (rel(f.file), f.name, ordf), p is None, "loop at line %s scanning for %r tests `%s` for NUL on every iteration" % (blk.term.get("l"), chr(const_val(r)) if 0 < const_val(r) < 128 else const_val(r), var.get("n")) if p is None else
+                   "loop at line %s scans for %r and can go round (path %s) without testing `%s` for the terminating NUL: an unterminated string runs the cursor past the end of the text" % (blk.term.get("l"), chr(const_val(r)) if 0 < const_val(r) < 128 else const_val(r), p[:6], var.get("n")),
+                   f.file, blk.term.get("l"), f.name, what="%s copies a string from save text without stopping at the end of the text" % f.name)
+            ordf += 1
+    run.need(nloops >= 3, "delimiter-scanning loops in the restore parsers (found %d)" % nloops)
+
+    # ---- C16-g numbers are parsed and printed at the width LPC integers have
+    run.rule("C16-g", "save/restore of integers: a decimal accumulator (`x *= 10` / `x = x * 10 + d`) whose value is stored into u.number is 64 bits wide, and the digit-count/print loops (`x /= 10`) over a copy of u.number work on an unsigned 64-bit magnitude (a signed copy cannot hold -INT64_MIN)", 3)
+    W64 = ("long", "unsigned long", "long long", "unsigned long long")
+    U64 = ("unsigned long", "unsigned long long")
+    ng = 0
+    for f in sorted(prog.functions(), key=lambda x: (x.file, x.line)):
+        if not f.file.endswith(("lib/lpc/object.c", "lib/lpc/mapping.c")):
+            continue
+        nodes = list(f.nodes())
+
+        def number_flow(vid, to_number):
+            for b2, i2, n2 in nodes:
+                if n2.get("k") == "Asg" and n2.get("op") == "=":
+                    l, r = strip(n2["L"]), n2["R"]
+                    if to_number and l.get("k") == "Mem" and l.get("f") == "number" and any(x.get("k") == "Ref" and x.get("id") == vid for x in walk(r)):
+                        return True
+                    if not to_number and l.get("k") == "Ref" and l.get("id") == vid and any(x.get("k") == "Mem" and x.get("f") == "number" for x in walk(r)):
+                        return True
+                if not to_number and n2.get("k") == "Decl":
+                    for vv in n2.get("vars", []):
+                        if vv.get("id") == vid and "init" in vv and any(x.get("k") == "Mem" and x.get("f") == "number" for x in walk(vv["init"])):
+                            return True
+            return False
+        seen = set()
+        for b, i, n in nodes:
+            if n.get("k") != "Asg" or strip(n["L"]).get("k") != "Ref":
+                continue
+            v = strip(n["L"])
+            acc = (n.get("op") == "*=" and const_val(n["R"]) == 10) or (n.get("op") == "=" and any(
+                x.get("k") == "Bin" and x.get("op") == "*" and 10 in (const_val(x["R"]), const_val(x["L"])) and any(y.get("k") == "Ref" and y.get("id") == v.get("id") for y in walk(x)) for x in walk(n["R"])))
+            div = n.get("op") == "/=" and const_val(n["R"]) == 10
+            t = v.get("t") or ""
+            if acc and ("acc", v.get("id")) not in seen and number_flow(v.get("id"), True):
+                seen.add(("acc", v.get("id")))
+                ng += 1
+                run.saw(f)
+                ok = t in W64
+                run.ob("C16-g", "accumulator:%s:%s" % (f.name, v.get("n")), ok, "decimal accumulator `%s` is %s" % (v.get("n"), t) if ok else
+                       "decimal accumulator `%s` is %s but its value becomes a 64-bit LPC integer: every saved value outside that range comes back truncated" % (v.get("n"), t), f.file, n.get("l"), f.name,
+                       what="%s parses integers into a %s" % (f.name, t))
+            if div and ("div", v.get("id")) not in seen:
+                # the variable itself or the one it was copied from holds u.number
+                src = [v.get("id")]
+                for b2, i2, n2 in nodes:
+                    if n2.get("k") == "Asg" and n2.get("op") == "=" and strip(n2["L"]).get("id") == v.get("id") and strip(n2["L"]).get("k") == "Ref" and strip(n2["R"]).get("k") == "Ref":
+                        src.append(strip(n2["R"]).get("id"))
+                if not any(number_flow(x, False) for x in src):
+                    continue
+                seen.add(("div", v.get("id")))
+                ng += 1
+                run.saw(f)
+                ok = t in U64
+                run.ob("C16-g", "magnitude:%s:%s" % (f.name, v.get("n")), ok, "digit loop over `%s` (%s)" % (v.get("n"), t) if ok else
+                       "digit loop over `%s` of type %s: a signed or narrower copy of an LPC integer has no magnitude for the most negative value; the digit count is then wrong and the writer stores before its buffer" % (v.get("n"), t), f.file, n.get("l"), f.name,
+                       what="%s counts/prints the digits of a %s copy of the integer" % (f.name, t))
+    run.need(ng >= 3, "decimal accumulators / digit loops over u.number (found %d)" % ng)
+
+    # ---- C16-h recursion over the nesting of a value is bounded
+    run.rule("C16-h", "save/restore recursion: every call cycle among the save/restore functions of lib/lpc/object.c passes through a function whose calls into the cycle are all preceded by a test of a nesting counter against a constant bound (the counter is incremented in the cycle), or only re-walks text whose nesting the bounded size pass has already measured (restore_size dominates it in every top-level caller)", 3)
+    cg = callgraph.CallGraph(prog)
+    fam = {f.name: f for f in unit.funcs.values() if f.name.startswith(("restore", "save", "svalue_save", "safe_restore"))}
+    # Tarjan over the family
+    idx, low, onst, st, sccs = {}, {}, set(), [], []
+
+    def sc(v):
+        idx[v] = low[v] = len(idx)
+        st.append(v)
+        onst.add(v)
+        for w in sorted(cg.edges.get(v, ())):
+            if w not in fam:
+                continue
+            if w not in idx:
+                sc(w)
+                low[v] = min(low[v], low[w])
+            elif w in onst:
+                low[v] = min(low[v], idx[w])
+        if low[v] == idx[v]:
+            comp = []
+            while True:
+                w = st.pop()
+                onst.discard(w)
+                comp.append(w)
+                if w == v:
+                    break
+            if len(comp) > 1 or v in cg.edges.get(v, ()):
+                sccs.append(sorted(comp))
+    for v in sorted(fam):
+        if v not in idx:
+            sc(v)
+
+    def counter_guard(f, blk, members):
+        """a counter tested against a constant bound on the way to this block, incremented in the cycle"""
+        for c, truth, B in cfgq.guards(f, blk.id):
+            for a, tr in __import__("stale").implied_atoms(c, truth):
+                op, l, r = atom_of(a, tr)
+                if op not in ("<", "<=", ">", ">=") or const_val(r) is None:
+                    continue
+                for x in walk(l):
+                    if x.get("k") == "Ref" and x.get("d") in ("global", "static", "param", "local"):
+                        vid = (x.get("d"), x.get("n"))
+                        # incremented somewhere in the cycle (or passed +1 for a parameter)
+                        for m in members:
+                            for b2, i2, n2 in fam[m].nodes():
+                                if n2.get("k") in ("Un", "Post", "Pre", "IncDec") and "++" in (n2.get("op") or "") and strip(n2.get("e")).get("n") == x.get("n"):
+                                    return x.get("n")
+                                if n2.get("k") == "Asg" and n2.get("op") == "+=" and strip(n2["L"]).get("n") == x.get("n"):
+                                    return x.get("n")
+        return None
+
+    # recursion that does not follow the nesting of a value or of save text (one named reason each)
+    STRUCTURAL = {"save_object_recurse": "recurses over prog->inherit[], the inherit tree of a compiled program: finite and acyclic by construction, its depth is not input-controlled"}
+
+    def members_bounded(comp):
+        for m in comp:
+            f = fam[m]
+            sites = [(b, i, n) for b, i, n in f.calls() if n.get("fn") in comp]
+            if not sites:
+                continue
+            gs = [counter_guard(f, b, comp) for b, i, n in sites]
+            if all(gs):
+                return "%s tests %s before each of its %d call(s) into the cycle" % (m, "/".join(sorted(set(gs))), len(sites))
+        return None
+    verdicts = {}
+    for comp in sccs:
+        verdicts[tuple(comp)] = members_bounded(comp)
+    measured = set()
+    for comp, v in verdicts.items():
+        if v:
+            measured.update(comp)
+    # wrappers that do nothing but enter a bounded cycle (restore_size -> restore_internal_size)
+    for name, f in fam.items():
+        if name not in measured and any(n.get("fn") in measured for b, i, n in f.calls()) and not any(name in c for c in verdicts):
+            measured.add(name)
+    for comp in sccs:
+        comp_t = tuple(comp)
+        run.saw(fam[comp[0]])
+        bounded_by = verdicts[comp_t]
+        verdict = True if bounded_by else False
+        if not bounded_by and len(comp) == 1 and comp[0] in STRUCTURAL:
+            run.ob("C16-h", "cycle:%s" % comp[0], True, "structural recursion: " + STRUCTURAL[comp[0]], fam[comp[0]].file, fam[comp[0]].line, comp[0])
+            continue
+        if not bounded_by:
+            # (a) entered only from sites dominated by a call of the bounded measuring pass
+            entries = [(g, b, n) for m in comp for (g, b, i, n) in cg.sites.get(m, []) if g.name not in comp]
+            pre = [any(n2.get("fn") in measured and g.dominates(b2.id, b.id) for b2, i2, n2 in g.calls()) for g, b, n in entries]
+            if entries and all(pre):
+                verdict = True
+                bounded_by = "entered from %d site(s), each dominated by the bounded measuring pass: the walk repeats nesting that pass accepted" % len(entries)
+            else:
+                # (b) inside every member, each call into the cycle is reached only through the measuring pass or
+                #     with the nesting table of an enclosing measured walk in force (`if (save_svalue_depth)`)
+                ok_members, bad = 0, []
+                for m in comp:
+                    f = fam[m]
+                    sites = [(b, i, n) for b, i, n in f.calls() if n.get("fn") in comp]
+                    if not sites:
+                        continue
+                    avoid_b = {b.id for b, i, n in f.calls() if n.get("fn") in measured}
+                    avoid_e = set()
+                    for bid in f.reachable():
+                        c = f.branch_cond(bid)
+                        if c is not None and strip(c).get("k") == "Ref" and strip(c).get("n") == "save_svalue_depth":
+                            avoid_e.add((bid, f.blocks[bid].succ[0]))
+                    free = cfgq.reach_set(f, [f.entry], avoid_blocks=avoid_b, avoid_edges=avoid_e)
+                    hit = [n.get("l") for b, i, n in sites if b.id in free]
+                    if hit or not (avoid_b or avoid_e):
+                        bad.append((m, hit))
+                    else:
+                        ok_members += 1
+                if ok_members and not bad:
+                    verdict = True
+                    bounded_by = "in each of %d member(s) every call into the cycle comes after the bounded size pass or under the nesting table it produced" % ok_members
+                elif bad:
+                    bounded_by = None
+        run.ob("C16-h", "cycle:%s" % "+".join(comp), verdict, bounded_by or "no function of the cycle %s tests a nesting counter against a constant before recursing, and the cycle is not confined behind the bounded size pass: nesting in the input (or in a self-containing value) translates into unbounded C recursion" % comp,
+               fam[comp[0]].file, fam[comp[0]].line, comp[0], what="recursion through %s has no depth bound" % "/".join(comp))
+    run.need(len(sccs) >= 4, "recursion cycles in the save/restore family (found %d)" % len(sccs))
+    run.need(any(verdicts.values()), "a counter-bounded measuring pass")
+
+    # ---- C16-i nothing raises while the temporary stream is open
+    run.rule("C16-i", "save_object: between fopen() of the temporary and its fclose(), a call that can leave by error() (which would leak the FILE and leave the .tmp file behind) is allowed only if the same function was already run to completion on the same data before the stream was opened (the dry run that raises first)", 1)
+    eff = callgraph.Effects(cg)
+    open_b = opens[0][0]
+    closes = [(b, i, n) for b, i, n in so.calls() if n.get("fn") == "fclose"]
+    run.need(closes, "fclose in save_object")
+    close_blocks = {b.id for b, i, n in closes}
+    region = cfgq.reach_set(so, open_b.live_succ(), avoid_blocks=close_blocks) | {open_b.id}
+    # a block holding the fclose() is entered with the stream open: its elements before the fclose() count
+    first_close = {}
+    for b, i, n in closes:
+        if any(b.id in so.blocks[p].live_succ() for p in region):
+            first_close[b.id] = min(i, first_close.get(b.id, i))
+    ni = 0
+    for b, i, n in so.calls():
+        if b.id in first_close and b.id not in region:
+            if i >= first_close[b.id]:
+                continue
+        elif b.id not in region or (b.id == open_b.id and i <= opens[0][1]):
+            continue
+        if not eff.call_may_raise(so, n):
+            continue
+        ni += 1
+        pre = [(b2, i2, n2) for b2, i2, n2 in so.calls() if n2.get("fn") == n.get("fn") and n2 is not n and so.point_dominates((b2.id, i2), (open_b.id, opens[0][1]))]
+        why = callgraph.why(cg, n.get("fn"), callgraph.RAISE_SEEDS, barriers=callgraph.CATCH_BARRIERS) if n.get("fn") else None
+        run.ob("C16-i", "open-stream:%s" % (n.get("fn") or "(*)"), bool(pre),
+               "%s() can raise (%s) but already ran at line %s before the stream was opened" % (n.get("fn"), " -> ".join(why or [])[:120], pre[0][2].get("l")) if pre else
+               "%s() at line %s runs with the temporary stream open and can leave by error() (%s): the FILE leaks and the temporary file stays behind" % (n.get("fn"), n.get("l"), " -> ".join(why or [])[:160]),
+               so.file, n.get("l"), "save_object", what="save_object can be left by error() in %s() while the temporary file is open" % n.get("fn"))
+    run.need(ni >= 1, "raising calls under the open stream (found %d)" % ni)
+
+    # ---- C16-j the string writer escapes every character the string readers give a meaning to
+    run.rule("C16-j", "string escaping tables agree: every character the string readers (restore_string, restore_interior_string, restore_hash_string) treat specially inside a string - delimiter, escape introducer, translated character - is written behind a backslash by save_svalue's string case, and svalue_save_size counts an extra byte for exactly the characters save_svalue escapes", 4)
+
+    def char_consts_tested(f, only_in=None):
+        out = {}
+        for bid in sorted(f.reachable()):
+            blk = f.blocks[bid]
+            t2 = blk.term or {}
+            if t2.get("k") == "SwitchStmt":
+                cond2 = t2.get("cond") or (blk.el[-1] if blk.el else None)
+                if cond2 is not None and strip(cond2).get("k") == "Ref" and (strip(cond2).get("t") or "") in ("char", "unsigned char", "int"):
+                    for sx in blk.succ:
+                        lab = f.blocks[sx].label if sx is not None else None
+                        if lab and lab.get("k") == "case" and lab.get("lo"):
+                            out.setdefault(lab["lo"], t2.get("l"))
+        for b, i, n in f.nodes():
+            if n.get("k") == "Bin" and n.get("op") in ("==", "!="):
+                for x, y in ((n["L"], n["R"]), (n["R"], n["L"])):
+                    k = const_val(y)
+                    x0 = strip(x)
+                    if x0.get("k") == "Asg":
+                        x0 = strip(x0["L"])
+                    if k and x0.get("k") == "Ref" and (x0.get("t") or "") in ("char", "unsigned char") and 0 < k < 256:
+                        out.setdefault(k, n.get("l"))
+        return out
+    readers = [g for g in prog.functions() if g.name in ("restore_string", "restore_interior_string", "restore_hash_string") and g.file.endswith(("lib/lpc/object.c", "lib/lpc/mapping.c"))]
+    run.need(len(readers) >= 3, "string readers (found %d)" % len(readers))
+
+    def escaped_set(f):
+        """constants K such that `c == K` sends control to one common block (the short-circuit chain
+        `c == K1 || c == K2 ...` of the escaping branch); the chain containing the backslash is the escape test"""
+        groups = {}
+        for bid in sorted(f.reachable()):
+            c = f.branch_cond(bid)
+            if c is None:
+                continue
+            op, l, r = atom_of(c, True)
+            k = const_val(r) if r is not None else None
+            if op in ("==", "!=") and k and strip(l).get("k") == "Ref" and (strip(l).get("t") or "") == "char":
+                tgt = f.blocks[bid].succ[0 if op == "==" else 1]
+                groups.setdefault(tgt, set()).add(k)
+        best = None
+        for tgt, ks in groups.items():
+            if ord("\\") in ks and (best is None or len(ks) > len(best[0])):
+                best = (ks, tgt)
+        return best
+    we = escaped_set(sw)
+    se = escaped_set(ss)
+    run.need(we and se, "escape tests in save_svalue / svalue_save_size")
+    pr = lambda ks: "{%s}" % ", ".join(repr(chr(k)) for k in sorted(ks))
+    run.ob("C16-j", "size-vs-write", we[0] == se[0], "both passes escape %s" % pr(we[0]) if we[0] == se[0] else "save_svalue escapes %s but svalue_save_size counts an extra byte for %s: the buffer is %s" % (pr(we[0]), pr(se[0]), "too small for a string full of %s" % pr(we[0] - se[0]) if we[0] - se[0] else "oversized"),
+           sw.file, sw.line, "save_svalue", what="the size pass and the write pass escape different characters in strings")
+    for g in sorted(readers, key=lambda x: (x.file, x.line)):
+        run.saw(g)
+        special = char_consts_tested(g)
+        run.need(ord('"') in special or ord("\\") in special, "special characters of %s" % g.name)
+        missing = sorted(k for k in special if k not in we[0])
+        run.ob("C16-j", "reader:%s" % g.name, not missing, "%s gives a meaning to %s; save_svalue escapes all of them" % (g.name, pr(special)) if not missing else
+               "%s gives a meaning to %s inside a string (line %s) but save_svalue writes it unescaped: a string containing it does not come back equal" % (g.name, pr(missing), special[missing[0]]), g.file, special[missing[0]] if missing else g.line, g.name,
+               what="%s interprets %s, which save_svalue does not escape" % (g.name, pr(missing)))
+
+    # ---- C16-k a float is printed so that it reads back as a float, identically in both passes
+    run.rule("C16-k", "floats: every printf-family conversion of a double in the save path keeps a float marker in the text (%g only with the '#' flag, %f/%e not with precision 0) so parse_numeric reads it back as a float, and the size pass and the write pass format reals through the same call", 2)
+    import re as _re
+    PRINTF = {"sprintf": 1, "snprintf": 2, "fprintf": 1, "printf": 0}
+
+    def real_formats(f, depth=1):
+        out = []
+        for b, i, n in f.calls():
+            fn = n.get("fn")
+            if fn in PRINTF and len(n["args"]) > PRINTF[fn]:
+                fmt = strip(n["args"][PRINTF[fn]])
+                text = fmt.get("s") if fmt.get("k") == "Str" else None
+                if any((strip(a).get("t") or "") in ("double", "float") or (a.get("t") or "") in ("double", "float") for a in n["args"][PRINTF[fn] + 1:]):
+                    out.append((f.name, fn, text, n.get("l")))
+            elif depth and fn in unit.funcs and unit.funcs[fn].static and fn not in (ss.name, sw.name):
+                out += real_formats(unit.funcs[fn], depth - 1)
+        return out
+    rs, rw = real_formats(ss), real_formats(sw)
+    run.need(rs and rw, "conversions of doubles in svalue_save_size / save_svalue")
+    same = {(a, b_, c) for a, b_, c, l in rs} == {(a, b_, c) for a, b_, c, l in rw}
+    run.ob("C16-k", "real-size-vs-write", same, "both passes format reals through %s" % sorted({(a, c) for a, b_, c, l in rw}) if same else
+           "the size pass formats reals with %s, the write pass with %s: the two can disagree on the length" % (sorted({(a, c) for a, b_, c, l in rs}), sorted({(a, c) for a, b_, c, l in rw})), sw.file, rw[0][3], "save_svalue",
+           what="size pass and write pass print floats differently")
+    for fname, fn, text, l in sorted(set(rw)):
+        if text is None:
+            run.ob("C16-k", "real-format:%s" % fname, None, "format of %s() at line %s is not a literal" % (fn, l), sw.file, l, fname)
+            continue
+        convs = _re.findall(r"%([#0\- +]*)(\d+|\*)?(?:\.(\d+|\*))?(?:[lLhqjzt]*)([a-zA-Z%])", text)
+        fl = [(flags, prec, cv) for flags, w_, prec, cv in convs if cv in "gGeEfFaA"]
+        bad = [("%" + flags + ("." + prec if prec else "") + cv) for flags, prec, cv in fl if "#" not in flags and (cv in "gG" or prec == "0")]
+        run.ob("C16-k", "real-format:%s" % fname, bool(fl) and not bad, "%s(\"%s\") keeps a decimal point or exponent for every value" % (fn, text) if fl and not bad else
+               "%s(\"%s\") at line %s prints integral values (1.0, 100000.0) without a decimal point: they are restored as integers" % (fn, text, l), sw.file, l, fname,
+               what="%s prints a float with %s, which drops the decimal point of integral values" % (fname, bad))
